@@ -1289,7 +1289,8 @@ class Ref:
             return
         if self.ida and not f.required and f.container in ("opt", "default", "tlist", "list", "tuple"):
             default = None if f.container == "opt" else (dec_value(f.default, self.L.ns) if f.container == "default" else None)
-            if f.container == "default" and same_value(default, v):
+            # "equals the default" is Python equality: a NaN value never equals a NaN default and is written
+            if f.container == "default" and same_value(default, v) and not (isinstance(v, float) and v != v):
                 return
         q = clark(self.field_ns(c, decl, f.namespace, "Attribute"), self.field_local(c, f))
         el.attrs[q] = XLeaf(f.types, v, f.format, tokens=f.tokens)
